@@ -329,8 +329,8 @@ def run(tier, seed, replay=None):
                       {"broken": "theorems " + ",".join(pr["failed"]), "log": pr["log"][-3000:], "hygiene": hygiene}, found_input=False)
     impl_exe = vlib.build_oracle("asan")
     model_bin = vlib.build_model_oracle()
-    # vlib gives every child a 1 GB stack (for the extracted models); unbounded recursion in the
-    # implementation must hit the usual 8 MB limit quickly instead
+    # an 8 MB stack for the implementation: should unbounded recursion come back it is reported within a second
+    # (vlib's default for the C++ oracles is 64 MB)
     impl_bin = "/bin/sh"
     IMPL = ["-c", "ulimit -s 8192; exec '%s' corrupt" % impl_exe]
     rng = random.Random(seed)
@@ -591,7 +591,7 @@ def crash_site(crash):
     if "WATCHDOG" in err:
         return "watchdog"
     m = re.search(r"(AddressSanitizer: [\w-]+|runtime error: [^\n]{0,80})", err)
-    site = m.group(1) if m else "rc=%s" % (crash or {}).get("rc")
+    site = re.sub(r" 0x[0-9a-f]+", "", m.group(1)) if m else "rc=%s" % (crash or {}).get("rc")
     fr = re.findall(r"#\d+ 0x[0-9a-f]+ in (nifly::[\w:<>~]+)", err)
     if fr:
         site += " in " + fr[0]
